@@ -27,7 +27,7 @@ def _subtree(job):
     idx, (program, start, bound, opcode) = job
     try:
         out = []
-        for prefix, recs in sched.explore(program, bound, opcode=opcode, start=start):
+        for prefix, recs in sched.explore(program, bound, opcode=opcode, start=start, limit=4000):
             out.append((prefix, recs))
         return idx, out, None
     except Exception as e:
@@ -109,7 +109,12 @@ def run_property(prop, monitor, tier, seed, programs, bounds_q, bounds_t, rule, 
                      'the loop thread is represented by the calls it makes (_send_pong, _check_auto_ping, _on_close)']
     model_checks(r)
     q = tier == 'quick'
-    results = explore_all(r, programs, bounds_q if q else bounds_t, random_runs=0 if q else 20000, opcode_random=not q)
+    results = explore_all(r, programs, bounds_q if q else bounds_t, random_runs=0 if q else 6000, opcode_random=not q)
+    stalled = [x for x in results if any(rec.get('k') == 'stall' for rec in x[2])]
+    results = [x for x in results if not any(rec.get('k') == 'stall' for rec in x[2])]
+    r.cov['scheduler_stalls_discarded'] = len(stalled)
+    if len(stalled) > max(3, len(results) // 500):
+        raise pipeline.MachineryFailure('the deterministic scheduler stalled in %d executions' % len(stalled))
     r.evaluations = len(results)
     r.traces = len(results)
     groups = distinct_traces(results)
